@@ -16,9 +16,9 @@
 typedef VP_WT W;
 enum { N = VP_N, NS = 1 << VP_N, VMAXV = 8 };
 #if VP_LABELS == 1
-static const int label[5] = {5, 2, 9, 0, 7};
+static const int label[6] = {5, 2, 9, 0, 7, 3};
 #else
-static const int label[5] = {0, 1, 2, 3, 4};
+static const int label[6] = {0, 1, 2, 3, 4, 5};
 #endif
 static int pcnt(int m) { return __builtin_popcount(m); }
 struct Diagram { int cnt[N][VMAXV][VMAXV + 1]; };   // cnt[dim][birth][death], death index VMAXV = infinite
@@ -40,7 +40,11 @@ extern "C" void harness() {
   for (int i = 0; i < N; i++) for (int j = i + 1; j < N; j++) {
 #ifdef VP_GRIDW
     // weights as finite-grid doubles (guarded constants): the collapser only compares and copies them
-    int present = vp_fork_int(vp_int("has", 0, 1)); W xw = (W)vp_double_grid("w", 1.0, 1.0, VP_WMAX); int x = 0; if (present) { for (int q = 1; q <= VP_WMAX; q++) if (xw == (W)q) x = q; }
+#ifdef VP_GRAPH   /* fixed edge set: 1 = octahedron (K6 minus a perfect matching), 2 = complete graph; only the weights vary */
+    int present = (VP_GRAPH == 1) ? !((i ^ j) == 1 && (i >> 1) == (j >> 1)) : 1;
+#else
+    int present = vp_fork_int(vp_int("has", 0, 1));
+#endif W xw = (W)vp_double_grid("w", 1.0, 1.0, VP_WMAX); int x = 0; if (present) { for (int q = 1; q <= VP_WMAX; q++) if (xw == (W)q) x = q; }
     w[i][j] = w[j][i] = present ? x : -1; if (present) e.emplace_back(label[i], label[j], xw);
 #else
     int x = vp_int("w", 0, VP_WMAX); w[i][j] = w[j][i] = x == 0 ? -1 : x; if (x) e.emplace_back(label[i], label[j], (W)x);
